@@ -194,8 +194,13 @@ class TrX(pyz.Tr):
                     return "(pv_cmp_gt_int %s %s)" % (a, b), "RB"
                 if ta == "V" and tb == "Z" and isinstance(op, ast.LtE):
                     return "(rmap negb (pv_cmp_gt_int %s %s))" % (a, b), "RB"
-        if isinstance(e, ast.ListComp) and ast.unparse(e) == "[name for name in names if '__' in name]":
-            t, ty = self.expr(ast.Name(id="names", ctx=ast.Load()), env)
+        if isinstance(e, ast.ListComp) and len(e.generators) == 1 \
+                and isinstance(e.generators[0].target, ast.Name) and isinstance(e.elt, ast.Name) \
+                and e.elt.id == e.generators[0].target.id and not e.generators[0].is_async \
+                and [ast.unparse(c) for c in e.generators[0].ifs] \
+                == ["'__' in %s" % e.generators[0].target.id]:
+            # [n for n in <list of names> if '__' in n]   (the names of the locals are free)
+            t, ty = self.expr(e.generators[0].iter, env)
             self.need(ty, "NL", e)
             return "(filter has_dunder %s)" % t, "NL"
         if isinstance(e, ast.Subscript) and ast.unparse(e) not in env:
